@@ -13,9 +13,11 @@ def ro_positions(b, kinds):
     return [o['pos'] for o in E.reforig_ops(b) if o['op'] in kinds]
 
 
-def pattern_cuts(b, tys):
+def pattern_cuts(b, tys, partners=None):
     """edges of switches on the discriminant of locals of the given types, leading away from the 'matched' arm
-    (value-dependent pattern failures that a path-insensitive rule cannot exclude)."""
+    (value-dependent pattern failures that a path-insensitive rule cannot exclude).  The matched arm is the `else` edge's
+    complement (`if let PAT = v`); with `partners` given it is decided by shape-independent means instead: every edge of such a
+    switch from which no partner is reachable is a pattern failure (`match v { PAT => partner(..), _ => {} }` in any arm order)."""
     cut = set()
     for pos, s in b.iter_stmts():
         if s['k'] == 'assign' and s['rv']['k'] == 'discr' and is_local_op(s['rv']['pl']):
@@ -24,7 +26,13 @@ def pattern_cuts(b, tys):
             if any(t in ty for t in tys):
                 t = b.blocks[pos[0]]['term']
                 if t['k'] == 'switch' and is_local_op(t['d']) and t['d']['l'] == s['dst']['l']:
-                    d = dict(t['ts'])
+                    if partners:
+                        tgts = {x for _, x in t['ts']} | {t['else']}
+                        hit = {x for x in tgts if any(p_ in b.reach_from((x, 0), include_start=True) for p_ in partners)}
+                        if hit and hit != tgts:
+                            for x in tgts - hit:
+                                cut.add((pos[0], x))
+                            continue
                     cut.add((pos[0], t['else']))
     return cut
 
@@ -208,7 +216,7 @@ def run(ctx):
 
     rc = P.get('Element::remove_character_data')
     clr = [o['pos'] for o in E.content_ops(rc) if o['op'] == 'clear']
-    cut = bool_false_cuts(rc, r'impl Element>::is_reference$') | pattern_cuts(rc, ['Option<CharacterData>'])
+    cut = bool_false_cuts(rc, r'impl Element>::is_reference$') | pattern_cuts(rc, ['Option<CharacterData>', 'CharacterData'], ro_positions(rc, {'remove'}))
     ok = len(clr) == 1 and before_all(rc, clr[0], ro_positions(rc, {'remove'}), cut)
     C.check(ok, 'C05-PAIR-origins', 'Element::remove_character_data|ref-text-clear|needs:remove', 'a reference\'s text is cleared without removing it from reference_origins', rc.where(clr[0]) if clr else '')
 
